@@ -59,6 +59,16 @@ def wrap_lambda(prog):
 
 
 def run_case(case, ctx):
+    if case and case[0] == "boundary":
+        prog = dict(boundary_programs())[case[1]]
+        src, lines = printer.to_source(prog)
+        res, _why = run_model(prog, lines, step_limit=2_000_000)
+        fail = None
+        for v in ("dbg", "rel"):
+            fail = compare_model(PROPERTY, res, ctx.worker(v).run(src), "(%s)" % case[1], v)
+            if fail is not None:
+                break
+        return Outcome(key="boundary:" + case[1], nontrivial=True, labels=["boundary"], failure=fail, runs=2)
     prog, noise, bits = case
     src, lines = printer.to_source(prog)
     res, why = run_model(prog, lines)
@@ -114,3 +124,63 @@ def run_case(case, ctx):
         runs += 1
         fail = compare_model(PROPERTY, res, r, src, "release build")
     return Outcome(key=src, nontrivial=nontrivial, labels=labels, failure=fail, sample=short(src), runs=runs)
+
+
+# ------------------------------------------------------------------------------------------- operand width boundaries
+def _many_constants(kind, n):
+    """A body whose chunk holds more than 256 distinct constants (one byte / two byte constant operands), read back."""
+    N = lambda x: ("num", float(x))  # noqa: E731
+    if kind == "num":
+        items = [N(1000 + i) for i in range(n)]
+    elif kind == "str":
+        items = [("str", "s%d" % i) for i in range(n)]
+    elif kind == "mixed":
+        items = [N(1000 + i) if i % 2 else ("str", "s%d" % i) for i in range(n)]
+    else:  # capture free function values are constants too
+        items = [("lambda", [], ("expr", N(2000 + i))) for i in range(n)]
+    body = [("let", "big", ("list", items))]
+    for i in (0, 1, 253, 254, 255, 256, 257, 258, n - 1):
+        e = ("index", ("var", "big"), N(i))
+        if kind == "fn":
+            e = ("call", e, [])
+        body.append(("print", e))
+    body.append(("print", ("call", ("prop", ("var", "big"), "len"), [])))
+    # literals after the long list use indexes beyond it: plain statements with constants 256.. in operand position
+    body.append(("print", ("bin", "+", N(777777), N(888888))))
+    body.append(("print", ("bin", "+", ("str", "tail-a"), ("str", "tail-b"))))
+    return body
+
+
+def boundary_programs():
+    out = []
+    for kind in ("num", "str", "mixed", "fn"):
+        for n in (255, 256, 257, 300, 520):
+            body = _many_constants(kind, n)
+            out.append(("constants-%s-%d-module" % (kind, n), body))
+            out.append(("constants-%s-%d-fn" % (kind, n), wrap_fn(body)))
+            out.append(("constants-%s-%d-method" % (kind, n), wrap_method(body)))
+            out.append(("constants-%s-%d-lambda" % (kind, n), wrap_lambda(body)))
+    return out
+
+
+def extra(tier, ctx):
+    from ..runner import enc
+    out = []
+    for name, prog in boundary_programs():
+        src, lines = printer.to_source(prog)
+        res, why = run_model(prog, lines, step_limit=2_000_000)
+        if res is None:
+            out.append(Outcome(discarded=why))
+            continue
+        fail = None
+        runs = 0
+        for v in ("dbg", "rel"):
+            r = ctx.worker(v).run(src)
+            runs += 1
+            fail = compare_model(PROPERTY, res, r, "(%s: a list of distinct constants, see pbt/checks/c01.py)" % name, v)
+            if fail is not None:
+                fail.sig = "%s/boundary/%s" % (PROPERTY, fail.sig.split("/", 1)[1])
+                fail.info = {"case": enc(("boundary", name))}
+                break
+        out.append(Outcome(key="boundary:" + name, nontrivial=True, labels=["boundary"], failure=fail, runs=runs))
+    return out
